@@ -507,7 +507,8 @@ class Prop:
     rule = ("plain and typed trees: every ordered forest with <= N nodes (N=4 quick, 5 thorough) x 6 label patterns "
             "(all distinct; clones across branches; a descendant that is a clone of its ancestor; int data_ids incl. 0; "
             "explicit str data_ids incl. ''; one shared explicit id), plain and typed for <= 3 nodes, alternating plain / "
-            "typed over patterns and shapes above (quick: all patterns, thorough: the two id patterns), plus seeded random "
+            "typed over patterns and shapes above (quick: all patterns and 4 of 6 patterns per 4-node shape, thorough: the two id "
+            "patterns), plus seeded random "
             "trees of 5..12 nodes over a small label alphabet; for each tree: the whole tree (Tree API) and every node "
             "(small trees) or 3 sampled nodes (random trees) as start x DOT/Mermaid structure (unique_nodes x "
             "add_self/add_root) and RDF (add_self on/off; tree); plus 2-3 whole Mermaid charts (markdown, direction, "
@@ -619,6 +620,8 @@ class Prop:
                     for typed in (False, True):
                         if n >= 4 and (pat in ("ints", "strids") or tier == "quick") and typed != ((pi + si) % 2 == 0):
                             continue   # thin out: alternate plain / typed over patterns and shapes
+                        if n >= 4 and tier == "quick" and (pi + si) % 3 == 2:
+                            continue   # quick: 4 of the 6 patterns per 4-node shape, rotating
                         univ, nodes = self.label(pat, shape, typed)
                         ci += 1
                         charts = [[0, CHART_OPTS[ci % len(CHART_OPTS)]], [1, CHART_OPTS[(ci // 2 + 3) % len(CHART_OPTS)]]]
